@@ -37,6 +37,25 @@ type Cfg struct {
 	Bisync       bool        `json:"bisync,omitempty"`
 	SnapOffset   int64       `json:"snapOffset"`
 	ReaderChunks []int       `json:"readerChunks,omitempty"` // fragment sizes of the snapshot reader
+	// BadFormatEvery n > 0: the target refuses the RESTORE payload of every n-th snapshot key with "ERR Bad data format" (a server
+	// that cannot load the serialization: sanitize-dump-payload, an encoding it does not know); the tool then replays the value
+	// with native commands
+	BadFormatEvery int `json:"badFormatEvery,omitempty"`
+}
+
+// RefuseRestores arms the double according to BadFormatEvery.
+func RefuseRestores(c Cfg, srv *fake.Server, metas []rdbgen.Meta) {
+	if c.BadFormatEvery <= 0 {
+		return
+	}
+	srv.Lock()
+	srv.BadFormatKeys = map[string]bool{}
+	for i, m := range metas {
+		if i%c.BadFormatEvery == 0 {
+			srv.BadFormatKeys[string(m.Key)] = true
+		}
+	}
+	srv.Unlock()
 }
 
 const RunID = "2222222222222222222222222222222222222222"
